@@ -74,7 +74,7 @@ Definition wf_file (b : bucket) (f : yfile) : bool :=
   && strictly_asc (map s_pos (y_slots f)) && forallb (wf_slot b (y_year f)) (y_slots f).
 
 Definition wf_bucket (b : bucket) : bool :=
-  is_tf (b_tf b) && (queryable_tf (b_tf b) =? b_tf b)
+  is_tf (b_tf b)
   && (if b_var b then (b_reclen b =? 24) && (4 <=? b_vrl b) && (b_vrl b <=? 65536)
       else (8 <=? b_reclen b) && (b_reclen b <=? 65536))
   && strictly_asc (map y_year (b_files b)) && forallb (wf_file b) (b_files b).
